@@ -4,7 +4,7 @@
 // arbitrary, and a successful unix::fs::symlink(t, l) is recorded as the fact os_symlinked(t, l).  Because that predicate is
 // uninterpreted, a postcondition `os_symlinked(T, L)` can only be proved if the real code asked the OS for exactly (T, L):
 // the contracts below therefore pin down WHAT Stdfs requests from / derives from the OS, not what the OS does.
-//@ prelude base errors io iter path_abs
+//@ prelude base errors io iter strs path_abs
 // R8 (unit-wide): std::fs / std::os::unix::fs / std::env calls become the OS-oracle shims below, arguments unchanged
 //@ rwall R8 re⟦\bfs::symlink_metadata\(⟧ => ⟦os_symlink_metadata(⟧
 //@ rwall R8 re⟦\bfs::metadata\(⟧ => ⟦os_metadata(⟧
@@ -12,6 +12,7 @@
 //@ rwall R8 re⟦\bfs::rename\(⟧ => ⟦os_rename(⟧
 //@ rwall R8 re⟦\bfs::create_dir_all\(⟧ => ⟦os_create_dir_all(⟧
 //@ rwall R8 re⟦\bFile::create\(⟧ => ⟦os_file_create(⟧
+//@ rwall R8 re⟦\bstd::fs::read_to_string\(⟧ => ⟦os_read_to_string(⟧
 //@ rwall R8 re⟦\bfs::remove_dir_all\(⟧ => ⟦os_remove_dir_all(⟧
 //@ rwall R8 re⟦\bstd::env::set_current_dir\(⟧ => ⟦os_set_current_dir(⟧
 //@ rwall R8 re⟦\bunix::fs::symlink\(⟧ => ⟦os_symlink(⟧
@@ -62,7 +63,17 @@ impl Metadata {
 #[verifier::external_body] pub fn os_read_link<T: PathArg>(p: T) -> (r: RvResult<PathBuf>) ensures r is Ok ==> r->Ok_0.comps() == os_link_target(p.pc()) { unimplemented!() }
 #[verifier::external_body] pub fn os_rename<T: PathArg, U: PathArg>(a: T, b: U) -> (r: RvResult<()>) ensures r is Ok ==> os_renamed(a.pc(), b.pc()) { unimplemented!() }
 #[verifier::external_body] pub fn os_create_dir_all<T: PathArg>(p: T) -> (r: RvResult<()>) ensures r is Ok ==> os_created_dir_all(p.pc()) { unimplemented!() }
-#[verifier::external_body] pub fn os_file_create<T: PathArg>(p: T) -> (r: RvResult<()>) ensures r is Ok ==> os_created_file(p.pc()) { unimplemented!() }
+#[verifier::external_body] pub struct OsFile { x: u8 }
+pub uninterp spec fn os_written(p: Comps, data: Seq<u8>) -> bool;
+pub uninterp spec fn os_file_text(p: Comps) -> Seq<char>;
+impl OsFile {
+    pub uninterp spec fn of(&self) -> Comps;
+    // ASSUMED[os]: File::create truncates; write_all writes all of the buffer; sync_all flushes to disk
+    #[verifier::external_body] pub fn write_all(&mut self, data: &[u8]) -> (r: RvResult<()>) ensures final(self).of() == old(self).of(), r is Ok ==> os_written(old(self).of(), data@) { unimplemented!() }
+    #[verifier::external_body] pub fn sync_all(&mut self) -> (r: RvResult<()>) ensures final(self).of() == old(self).of() { unimplemented!() }
+}
+#[verifier::external_body] pub fn os_file_create<T: PathArg>(p: T) -> (r: RvResult<OsFile>) ensures r is Ok ==> os_created_file(p.pc()) && r->Ok_0.of() == p.pc() { unimplemented!() }
+#[verifier::external_body] pub fn os_read_to_string<T: PathArg>(p: T) -> (r: RvResult<Str>) ensures r is Ok ==> r->Ok_0@ == os_file_text(p.pc()) { unimplemented!() }
 #[verifier::external_body] pub fn os_set_permissions<T: PathArg>(p: T, mode: u32) -> (r: RvResult<()>) ensures r is Ok ==> os_mode_set(p.pc(), mode) { unimplemented!() }
 #[verifier::external_body] pub fn os_remove_dir_all<T: PathArg>(p: T) -> (r: RvResult<()>) ensures r is Ok ==> os_removed_all(p.pc()) { unimplemented!() }
 #[verifier::external_body] pub fn os_set_current_dir<T: PathArg>(p: T) -> (r: RvResult<()>) ensures r is Ok ==> os_cwd_set(p.pc()) { unimplemented!() }
@@ -231,5 +242,287 @@ impl StdfsEntry {
                     &&& e.rel.comps() == spec_relative(abs_comps(b->Some_0), abs_comps(a->Some_0.drop_last()))              //@ clause stdfs.entry.rel_is_alt_relative_to_link_dir [C10,C16]
                 })
         }),
+//@ body
+}
+
+// =====================================================================================================================
+// Stdfs::mkdir_m and Stdfs::_copy / _chown: per-entry requests over an (assumed) traversal
+pub uninterp spec fn os_dir_created(p: Comps) -> bool;
+pub uninterp spec fn os_copied(from: Comps, to: Comps) -> bool;
+pub uninterp spec fn os_chowned(p: Comps, uid: Option<u32>, gid: Option<u32>) -> bool;
+#[verifier::external_body] pub fn os_create_dir<T: PathArg>(p: T) -> (r: RvResult<()>) ensures r is Ok ==> os_dir_created(p.pc()) { unimplemented!() }
+#[verifier::external_body] pub fn os_copy<T: PathArg, U: PathArg>(a: T, b: U) -> (r: RvResult<u64>) ensures r is Ok ==> os_copied(a.pc(), b.pc()) { unimplemented!() }
+// R8: `nix::unistd::chown(p, uid.map(Uid::from_raw), gid.map(Gid::from_raw))` (the two maps only wrap the raw ids)
+#[verifier::external_body] pub fn os_chown<T: PathArg>(p: T, uid: Option<u32>, gid: Option<u32>) -> (r: RvResult<()>) ensures r is Ok ==> os_chowned(p.pc(), uid, gid) { unimplemented!() }
+impl PathBuf {
+    // std Path::exists: a raw metadata query on the spelling
+    #[verifier::external_body] pub fn exists(&self) -> (b: bool) ensures b == os_stat_ok(self.comps(), false) { unimplemented!() }
+}
+// every component of the absolute path, top down, exists already or is created with the requested mode
+pub open spec fn mkdir_m_done(a: PathV, mode: u32, j: int) -> bool {
+    forall|i: int| 0 <= i <= j ==> os_stat_ok(abs_comps(#[trigger] a.take(i)), false) || (os_dir_created(abs_comps(a.take(i))) && os_mode_set(abs_comps(a.take(i)), mode))
+}
+impl Stdfs {
+//@ item mkdir_m file=src/sys/fs/stdfs/mod.rs block="impl Stdfs" fn=mkdir_m props=C01,C11,C05,C12
+//@ rw R3 1 for
+//@ rw R8 1 ⟦fs::create_dir(&path)?;⟧ => ⟦os_create_dir(&path)?;⟧
+//@ ins after ⟦let mut path = PathBuf::new();⟧
+        let ghost a = abs@;
+        let ghost mut k: int = 0;
+        proof { abs.ax_abs(); }
+//@ endins
+//@ loop 1
+            invariant
+                a == abs@, abs.abs_clean(), abs.comps() == abs_comps(a),
+                0 <= k <= a.len() + 1,
+                __it1.rest().len() == a.len() + 1 - k,
+                forall|i: int| 0 <= i < __it1.rest().len() ==> (#[trigger] __it1.rest()[i])@ == abs_comps(a)[k + i],
+                k == 0 ==> path.comps().len() == 0,
+                k > 0 ==> path.abs_clean() && path@ == a.take(k - 1) && path.comps() == abs_comps(a.take(k - 1)) && mkdir_m_done(a, mode, k - 1),
+            ensures k == a.len() + 1,
+            decreases a.len() + 1 - k
+//@ endloop
+//@ ins after ⟦path.push(component);⟧
+            proof {
+                k = k + 1;
+                if k > 1 { assert(a.take(k - 2).push(a[k - 2]) =~= a.take(k - 1)); } else { assert(a.take(0) =~= root()); }
+            }
+//@ endins
+    pub fn mkdir_m<T: PathArg>(path: T, mode: u32) -> (r: RvResult<PathBuf>)
+        ensures r is Ok ==> std_abs(path.pc()) is Some && r->Ok_0@ == std_abs(path.pc())->Some_0 && r->Ok_0.abs_clean()
+                            && mkdir_m_done(std_abs(path.pc())->Some_0, mode, std_abs(path.pc())->Some_0.len() as int),     //@ clause stdfs.mkdir_m.creates_each_missing_component_with_mode [C01,C11]
+//@ body
+}
+
+// ---- traversal shim (ASSUMED[traversal]: Entries over the real filesystem is not verified: C02/C08)
+#[verifier::external_body] pub struct VfsEntry { x: u8 }
+impl VfsEntry {
+    pub uninterp spec fn xpath(&self) -> PathV;
+    pub uninterp spec fn xlink(&self) -> bool;
+    pub uninterp spec fn xdir(&self) -> bool;
+    pub uninterp spec fn xmode(&self) -> u32;
+    pub uninterp spec fn xalt(&self) -> Comps;
+    // ASSUMED[traversal]: entries yielded by a Stdfs traversal were built by StdfsEntry::from, so their path is absolute and clean
+    #[verifier::external_body]
+    pub fn path(&self) -> (r: &PathBuf) ensures r@ == self.xpath(), r.abs_clean(), r.comps() == abs_comps(r@) { unimplemented!() }
+    #[verifier::external_body] pub fn is_symlink(&self) -> (r: bool) ensures r == self.xlink() { unimplemented!() }
+    #[verifier::external_body] pub fn is_dir(&self) -> (r: bool) ensures r == self.xdir() { unimplemented!() }
+    #[verifier::external_body] pub fn mode(&self) -> (r: u32) ensures r == self.xmode() { unimplemented!() }
+    #[verifier::external_body] pub fn alt(&self) -> (r: &PathBuf) ensures r.comps() == self.xalt() { unimplemented!() }
+}
+#[verifier::external_body] pub struct EntriesIt { x: u8 }
+impl EntriesIt {
+    pub uninterp spec fn left(&self) -> nat;      // ASSUMED[traversal]: a traversal is finite
+    pub uninterp spec fn troot(&self) -> PathV;
+    #[verifier::external_body] pub fn follow(self, yes: bool) -> (r: EntriesIt) ensures r.left() == self.left(), r.troot() == self.troot() { unimplemented!() }
+    #[verifier::external_body] pub fn max_depth(self, n: usize) -> (r: EntriesIt) ensures r.left() == self.left(), r.troot() == self.troot() { unimplemented!() }
+    // ASSUMED[traversal]: yielded paths lie at or below the traversal root
+    #[verifier::external_body]
+    pub fn next(&mut self) -> (r: Option<RvResult<VfsEntry>>)
+        ensures r is Some ==> final(self).left() < old(self).left(), final(self).troot() == old(self).troot(),
+                (r is Some && r->Some_0 is Ok) ==> in_sub(old(self).troot(), r->Some_0->Ok_0.xpath())
+    { unimplemented!() }
+}
+impl StdfsEntry {
+    // ASSUMED[entry-follow-contract]: unit entry_follow; the path stays absolute and clean (path or alt of an entry built by from())
+    #[verifier::external_body]
+    pub fn follow(self, follow: bool) -> (r: VfsEntry)
+        ensures !(follow && self.link && !self.follow) ==> r.xpath() == self.path@,
+                (follow && self.link && !self.follow && self.alt.abs_clean()) ==> r.xpath() == self.alt@
+    { unimplemented!() }
+    #[verifier::external_body] pub fn mode(&self) -> (r: u32) ensures r == self.mode { unimplemented!() }
+}
+pub open spec fn in_sub(a: PathV, p: PathV) -> bool { a.len() <= p.len() && p.take(a.len() as int) == a }
+impl PathBuf {
+    pub uninterp spec fn rel_names(&self) -> Seq<Name>;
+    pub uninterp spec fn is_rel(&self) -> bool;
+    // ASSUMED[trim-prefix-abs] / ASSUMED[mash-contract]: unit path_helpers
+    #[verifier::external_body]
+    pub fn trim_prefix<T: PathArg>(&self, prefix: T) -> (r: PathBuf)
+        ensures (self.abs_clean() && prefix.pok() && in_sub(prefix.pv(), self@)) ==> r.is_rel() && r.rel_names() == self@.skip(prefix.pv().len() as int)
+    { unimplemented!() }
+    #[verifier::external_body]
+    pub fn mash_rel(&self, p: PathBuf) -> (r: PathBuf)
+        ensures (self.abs_clean() && p.is_rel()) ==> r.abs_clean() && r@ == self@ + p.rel_names() && r.comps() == abs_comps(r@)
+    { unimplemented!() }
+    #[verifier::external_body]
+    pub fn eq_abs(&self, o: &PathBuf) -> (b: bool) ensures (self.abs_clean() && o.abs_clean()) ==> b == (self@ == o@) { unimplemented!() }
+}
+//@ struct file=src/sys/fs/copy.rs name=CopyOpts
+//@ endstruct
+//@ struct file=src/sys/fs/chown.rs name=ChownOpts
+//@ endstruct
+// recorded requests of the Stdfs functions _copy calls (each proved above / in this unit against the OS oracle)
+pub uninterp spec fn req_symlink(link: Comps, target: Comps) -> bool;
+pub uninterp spec fn req_mkdir_m(p: Comps, mode: u32) -> bool;
+pub uninterp spec fn ent_mode(p: Comps) -> u32;
+impl Stdfs {
+    #[verifier::external_body] pub fn entries<T: PathArg>(path: T) -> (r: RvResult<EntriesIt>) ensures (r is Ok && path.pok()) ==> r->Ok_0.troot() == path.pv() { unimplemented!() }
+    #[verifier::external_body] pub fn symlink_req(link: PathBuf, target: &PathBuf) -> (r: RvResult<PathBuf>) ensures r is Ok ==> req_symlink(link.comps(), target.comps()) { unimplemented!() }
+    #[verifier::external_body] pub fn mkdir_m_req<T: PathArg>(p: T, mode: u32) -> (r: RvResult<PathBuf>) ensures r is Ok ==> req_mkdir_m(p.pc(), mode) { unimplemented!() }
+    #[verifier::external_body] pub fn entry_mode<T: PathArg>(p: T) -> (r: RvResult<u32>) ensures r is Ok ==> r->Ok_0 == ent_mode(p.pc()) { unimplemented!() }
+}
+pub open spec fn dir_mode_of(o: CopyOpts) -> Option<u32> { match o.mode { Some(x) => if o.cdirs || !o.cfiles { Some(x) } else { None }, None => None } }
+pub open spec fn file_mode_of(o: CopyOpts) -> Option<u32> { match o.mode { Some(x) => if o.cfiles || !o.cdirs { Some(x) } else { None }, None => None } }
+pub open spec fn copy_dst(a: PathV, b: PathV, into: bool, p: PathV) -> PathV { if into { b + p.skip(a.len() - 1) } else { b + p.skip(a.len() as int) } }
+// what one yielded entry must cause: a link is re-created (not following), a directory is created with the selected or its own mode,
+// anything else is copied (after creating a missing parent with the selected mode or the source parent's mode) and gets the selected mode
+pub open spec fn copy_entry_done(e: &VfsEntry, a: PathV, b: PathV, into: bool, o: CopyOpts) -> bool {
+    let p = e.xpath();
+    let d = abs_comps(copy_dst(a, b, into, p));
+    if !o.follow && e.xlink() { req_symlink(d, e.xalt()) }
+    else if e.xdir() { req_mkdir_m(d, match dir_mode_of(o) { Some(x) => x, None => e.xmode() }) }
+    else {
+        let dd = abs_comps(copy_dst(a, b, into, p).drop_last());
+        &&& os_copied(abs_comps(p), d)
+        &&& (file_mode_of(o) is Some ==> os_mode_set(d, file_mode_of(o)->Some_0))
+        &&& ((std_abs(dd) is Some && os_stat_ok(abs_of(dd), false)) || req_mkdir_m(dd, match dir_mode_of(o) { Some(x) => x, None => ent_mode(abs_comps(p.drop_last())) }))
+    }
+}
+impl Stdfs {
+//@ item _copy file=src/sys/fs/stdfs/mod.rs block="impl Stdfs" fn=_copy props=C09,C11,C12
+//@ sig fn _copy(cp: sys::CopyOpts) -> RvResult<()>
+//@ rw R1 1 ⟦src_root == dst_root⟧ => ⟦src_root.eq_abs(&dst_root)⟧
+//@ rw R1 + re⟦dst_root\.mash\(⟧ => ⟦dst_root.mash_rel(⟧
+//@ rw R8 1 ⟦Stdfs::symlink(dst_path, src.alt())?;⟧ => ⟦Stdfs::symlink_req(dst_path, src.alt())?;⟧
+//@ rw R8 + re⟦Stdfs::mkdir_m\(⟧ => ⟦Stdfs::mkdir_m_req(⟧
+//@ rw R8 1 ⟦StdfsEntry::from(src.path().dir()?)?.mode()⟧ => ⟦Stdfs::entry_mode(src.path().dir()?)?⟧
+//@ rw R8 1 ⟦fs::copy(src.path(), &dst_path)?;⟧ => ⟦os_copy(src.path(), &dst_path)?;⟧
+//@ rw R3 1 for
+//@ ins after ⟦let copy_into = Stdfs::is_dir(&dst_root);⟧
+        let ghost b = dst_root@;
+//@ endins
+//@ ins after ⟦let src_root = StdfsEntry::from(&src_root)?.follow(cp.follow);⟧
+        // the root of the traversal: the source itself, or its target when following a link
+        let ghost a = src_root.xpath();
+//@ endins
+//@ loop 1
+            invariant
+                src_root.xpath() == a, dst_root.abs_clean(), dst_root@ == b, __it1.troot() == a,
+                dir_mode == dir_mode_of(cp), file_mode == file_mode_of(cp),
+            decreases __it1.left()
+//@ endloop
+//@ ins after ⟦let src = entry?;⟧
+            let ghost p = src.xpath();
+            proof {
+                assert(a.take(a.len() as int) =~= a);
+                if a.len() > 0 { assert(p.take(a.len() - 1) =~= p.take(a.len() as int).take(a.len() - 1)); assert(a.take(a.len() - 1) =~= a.drop_last()); }
+            }
+//@ endins
+//@ ins loopend 1
+            proof {
+                assert(dst_path@ == copy_dst(a, b, copy_into, p));
+                assert(copy_entry_done(&src, a, b, copy_into, cp));      //@ clause stdfs.copy.each_entry_is_recreated_at_its_relative_destination_with_the_selected_mode [C09,C11]
+            }
+//@ endins
+    pub fn _copy(cp: CopyOpts) -> (r: RvResult<()>)
+//@ body
+
+//@ item _chown file=src/sys/fs/stdfs/mod.rs block="impl Stdfs" fn=_chown props=C11,C12
+//@ sig fn _chown(opts: ChownOpts) -> RvResult<()>
+//@ rw R8 1 ⟦let uid = opts.uid.map(nix::unistd::Uid::from_raw);⟧ => ⟦let uid = opts.uid;⟧
+//@ rw R8 1 ⟦let gid = opts.gid.map(nix::unistd::Gid::from_raw);⟧ => ⟦let gid = opts.gid;⟧
+//@ rw R8 1 ⟦nix::unistd::chown(src.path(), uid, gid)?;⟧ => ⟦os_chown(src.path(), uid, gid)?;⟧
+//@ rw R3 1 for
+//@ loop 1
+            invariant true,
+            decreases __it1.left()
+//@ endloop
+//@ ins loopend 1
+            proof { assert(os_chowned(abs_comps(src.xpath()), opts.uid, opts.gid)); }      //@ clause stdfs.chown.requests_the_given_ids_for_each_yielded_entry [C11]
+//@ endins
+    pub fn _chown(opts: ChownOpts) -> (r: RvResult<()>)
+//@ body
+}
+
+// ---- Stdfs::_chmod: the same two-phase application as Memfs::_chmod, as requests to the OS
+//@ struct file=src/sys/fs/chmod.rs name=ChmodOpts
+//@ rw R1 * ⟦String⟧ => ⟦Str⟧
+//@ endstruct
+impl ChmodOpts {
+    #[verifier::external_body] pub fn clone(&self) -> (r: ChmodOpts) ensures r == *self { unimplemented!() }
+}
+impl VfsEntry {
+    pub uninterp spec fn xfile(&self) -> bool;
+    #[verifier::external_body] pub fn is_file(&self) -> (r: bool) ensures r == self.xfile() { unimplemented!() }
+}
+// ASSUMED[mode-contract]: sys::mode / revoking_mode as proved in unit chmod_mode
+pub uninterp spec fn spec_mode(link: bool, dir: bool, file: bool, mode: u32, octal: u32, sym: Seq<char>) -> Option<u32>;
+#[verifier::external_body]
+pub fn sys_mode(e: &VfsEntry, octal: u32, sym: &Str) -> (r: RvResult<u32>)
+    ensures r is Ok == spec_mode(e.xlink(), e.xdir(), e.xfile(), e.xmode(), octal, sym@) is Some,
+            r is Ok ==> r->Ok_0 == spec_mode(e.xlink(), e.xdir(), e.xfile(), e.xmode(), octal, sym@)->Some_0
+{ unimplemented!() }
+pub open spec fn revoking(old: u32, new: u32) -> bool { old & 0o0500 > new & 0o0500 || old & 0o0050 > new & 0o0050 || old & 0o0005 > new & 0o0005 }
+#[verifier::external_body]
+pub fn revoking_mode(old: u32, new: u32) -> (r: bool) ensures r == revoking(old, new) { unimplemented!() }
+impl EntriesIt {
+    #[verifier::external_body] pub fn contents_first(self) -> (r: EntriesIt) ensures r.left() == self.left(), r.troot() == self.troot() { unimplemented!() }
+    #[verifier::external_body] pub fn dirs_first(self) -> (r: EntriesIt) ensures r.left() == self.left(), r.troot() == self.troot() { unimplemented!() }
+    // R13: `.pre_op(move |x| { .. })`: the boxed closure is verified as its own item (chmod_pre_op)
+    #[verifier::external_body] pub fn pre_op_set(self) -> (r: EntriesIt) ensures r.left() == self.left(), r.troot() == self.troot() { unimplemented!() }
+}
+impl Stdfs {
+//@ item chmod_pre_op file=src/sys/fs/stdfs/mod.rs block="impl Stdfs" fn=_chmod closure=1 props=C11,C12
+//@ sig closure |x| in fn _chmod(opts: ChmodOpts) -> RvResult<()>
+//@ rw R8 + re⟦\bsys::mode\(⟧ => ⟦sys_mode(⟧
+//@ rw R8 + re⟦\bsys::revoking_mode\(⟧ => ⟦revoking_mode(⟧
+    pub fn chmod_pre_op(x: &VfsEntry, m: &ChmodOpts) -> (r: RvResult<()>)
+        ensures r is Ok ==> ({
+            let m1 = spec_mode(x.xlink(), x.xdir(), x.xfile(), x.xmode(), m.dirs, m.sym@);
+            &&& m1 is Some
+            // granting phase: a directory gets its new mode on the way in only when that takes no read/execute bit away
+            &&& ((!x.xlink() || m.follow) && x.xdir() && !revoking(x.xmode(), m1->Some_0) && x.xmode() != m1->Some_0) ==> os_mode_set(abs_comps(x.xpath()), m1->Some_0)     //@ clause stdfs.chmod.pre_op_grants_directory_mode_when_not_revoking [C11]
+        }),
+//@ body
+
+//@ item _chmod file=src/sys/fs/stdfs/mod.rs block="impl Stdfs" fn=_chmod props=C11,C12
+//@ sig fn _chmod(opts: ChmodOpts) -> RvResult<()>
+//@ rw R13 1 re⟦\.pre_op\(move \|x\| \{.*?\}\);⟧ => ⟦.pre_op_set();⟧
+//@ rw R8 + re⟦\bsys::mode\(⟧ => ⟦sys_mode(⟧
+//@ rw R3 1 for
+//@ loop 1
+            invariant true,
+            decreases __it1.left()
+//@ endloop
+//@ ins loopend 1
+            proof {
+                let v = if src.xdir() { spec_mode(src.xlink(), src.xdir(), src.xfile(), src.xmode(), opts.dirs, opts.sym@) }
+                        else if src.xfile() { spec_mode(src.xlink(), src.xdir(), src.xfile(), src.xmode(), opts.files, opts.sym@) } else { Some(0u32) };
+                // directories use the `dirs` octal / expression, files the `files` one; a symlink only when following; 0 = nothing to do
+                assert(v is Some && (((!src.xlink() || opts.follow) && v->Some_0 != src.xmode() && v->Some_0 != 0) ==> os_mode_set(abs_comps(src.xpath()), v->Some_0)));      //@ clause stdfs.chmod.requests_the_kind_specific_mode_for_each_yielded_entry [C11]
+            }
+//@ endins
+    pub fn _chmod(opts: ChmodOpts) -> (r: RvResult<()>)
+//@ body
+}
+
+// what Stdfs::exists / Stdfs::is_dir answer for a spelling (their contracts above)
+pub open spec fn q_exists(c: Comps) -> bool { std_abs(c) is Some && os_stat_ok(abs_of(c), false) }
+pub open spec fn q_is_dir(c: Comps) -> bool { std_abs(c) is Some && os_stat_ok(abs_of(c), true) && !os_is_link(abs_of(c)) && os_is_dir(abs_of(c), true) }
+impl Stdfs {
+//@ item write_all file=src/sys/fs/stdfs/mod.rs block="impl Stdfs" fn=write_all props=C06,C01,C05,C12
+//@ rw R1 1 ⟦f.write_all(data.as_ref())?;⟧ => ⟦f.write_all(data)?;⟧
+    pub fn write_all(path: &PathBuf, data: &[u8]) -> (r: RvResult<()>)
+        ensures
+            r is Ok ==> ({
+                let a = std_abs(path.comps());
+                &&& a is Some && a->Some_0.len() > 0
+                // the file at abs(path) is created/truncated and exactly `data` is written to it; its parent must be a real directory
+                &&& os_created_file(abs_comps(a->Some_0)) && os_written(abs_comps(a->Some_0), data@)        //@ clause stdfs.write_all.truncates_and_writes_data_at_abs_path [C06,C05]
+                &&& q_exists(abs_comps(a->Some_0.drop_last())) && q_is_dir(abs_comps(a->Some_0.drop_last()))                   //@ clause stdfs.write_all.parent_must_be_directory [C01]
+            }),
+//@ body
+//@ item read_all file=src/sys/fs/stdfs/mod.rs block="impl Stdfs" fn=read_all props=C06,C01,C05,C12
+//@ rw R5 * re⟦Err\(err\) => Err\(err\.into\(\)\)⟧ => ⟦Err(err) => Err(err)⟧
+    pub fn read_all(path: &PathBuf) -> (r: RvResult<Str>)
+        ensures
+            r is Ok ==> std_abs(path.comps()) is Some && r->Ok_0@ == os_file_text(abs_of(path.comps()))            //@ clause stdfs.read_all.reads_the_text_of_abs_path [C06,C05]
+                        && os_stat_ok(abs_of(path.comps()), true) && os_is_file(abs_of(path.comps()), true),
+            (r is Err && std_abs(path.comps()) is Some) ==> ({
+                let a = abs_of(path.comps());
+                &&& !os_stat_ok(a, true) ==> r->Err_0.kind == ErrKind::DoesNotExist
+                &&& (os_stat_ok(a, true) && !os_is_file(a, true)) ==> r->Err_0.kind == ErrKind::IsNotFile               //@ clause stdfs.read_all.error_kinds [C01]
+            }),
 //@ body
 }
